@@ -70,7 +70,19 @@ func connTarget() *target {
 				n, err := conn.WriteMessages(kafka.Message{Value: []byte("w")})
 				return fmt.Sprint(n, es(err))
 			},
-			"Seek":             func() string { o, err := conn.Seek(2, kafka.SeekStart); return fmt.Sprint(o, es(err)) },
+			"Seek":          func() string { o, err := conn.Seek(2, kafka.SeekStart); return fmt.Sprint(o, es(err)) },
+			"Seek-absolute": func() string { o, err := conn.Seek(3, kafka.SeekAbsolute); return fmt.Sprint(o, es(err)) },
+			"Seek-abs-nocheck": func() string {
+				o, err := conn.Seek(3, kafka.SeekAbsolute|kafka.SeekDontCheck)
+				return fmt.Sprint(o, es(err))
+			},
+			"Seek-cur-nocheck": func() string {
+				o, err := conn.Seek(1, kafka.SeekCurrent|kafka.SeekDontCheck)
+				return fmt.Sprint(o, es(err))
+			},
+			"Seek-end":         func() string { o, err := conn.Seek(0, kafka.SeekEnd); return fmt.Sprint(o, es(err)) },
+			"ReadOffsets":      func() string { a, b, err := conn.ReadOffsets(); return fmt.Sprint(a, b, es(err)) },
+			"Brokers":          func() string { b, err := conn.Brokers(); return fmt.Sprint(len(b), es(err)) },
 			"Offset":           func() string { o, w := conn.Offset(); return fmt.Sprint(o >= 0, w) },
 			"SetDeadline":      func() string { return es(conn.SetDeadline(time.Now().Add(20 * time.Second))) },
 			"SetReadDeadline":  func() string { return es(conn.SetReadDeadline(time.Now().Add(20 * time.Second))) },
@@ -384,7 +396,7 @@ func init() {
 
 var staticNames = map[string][]string{
 	"Batch":            {"Close", "Err", "HighWaterMark", "Offset", "Partition", "Read", "Read-short", "ReadMessage", "Throttle"},
-	"Conn":             {"ApiVersions", "Close", "LocalRemoteBroker", "Offset", "ReadBatch", "ReadLastOffset", "ReadMessage", "ReadPartitions", "Seek", "SetDeadline", "SetReadDeadline", "SetRequiredAcks", "SetWriteDeadline", "WriteMessages"},
+	"Conn":             {"ApiVersions", "Brokers", "Close", "LocalRemoteBroker", "Offset", "ReadBatch", "ReadLastOffset", "ReadMessage", "ReadOffsets", "ReadPartitions", "Seek", "Seek-abs-nocheck", "Seek-absolute", "Seek-cur-nocheck", "Seek-end", "SetDeadline", "SetReadDeadline", "SetRequiredAcks", "SetWriteDeadline", "WriteMessages"},
 	"Writer":           {"Close", "Stats", "WriteMessages", "WriteMessages-1"},
 	"Client+Transport": {"ApiVersions", "CloseIdleConnections", "Fetch", "ListOffsets", "Metadata", "Produce"},
 	"Reader":           {"Close", "FetchMessage", "Lag", "Offset", "ReadLag", "ReadMessage", "SetOffset", "Stats"},
